@@ -107,7 +107,10 @@ def c01(res):
         res.case(g)
         describe(res, g)
     corr_games(res, games, "property", "C01 closed form")
-    c01_exact(res, games[:: max(1, len(games) // size(res, 500, 900))])
+    core.trace_games(res, games[:: max(1, len(games) // size(res, 700, 1500))], "correspondence", "C01")
+    sample = games[:: max(1, len(games) // size(res, 500, 900))]
+    tm = [g for g in sample if IS_TM[g["kind"]]]
+    c01_exact(res, [g for g in sample if not IS_TM[g["kind"]]] + tm[:: max(1, len(tm) // size(res, 90, 150))])
     res.rule = ("random games over all strata (typical, wide, corners, mismatch 4-9 c apart, identical, equal sizes) "
                 "x 5 models x configurations (beta 1e-3..1e3 rescaled, kappa, tau, limit_sigma, 6 gamma callbacks) "
                 "x outcomes as ranks/scores in 8 numeric encodings, plus every weak order of n<=%d teams; each game's "
@@ -254,7 +257,7 @@ register("C02", c02, c02_item)
 
 
 # =============================================================================== C03
-ENCODINGS = ["int", "float", "mixed", "neg", "big", "gap", "bool", "frac"]
+ENCODINGS = ["int", "float", "mixed", "neg", "big", "gap", "bool", "frac", "huge"]
 
 
 def bits_equal(A, B):
@@ -319,7 +322,8 @@ def first_diff(A, B):
 TIE_PAIRS = [([1, 1.0], True), ([True, 1.0], True), ([0, -0.0], True), ([2 ** 53, 2.0 ** 53], True),
              ([0.5, 0.5], True), ([-3.0, -3], True), ([False, 0.0], True),
              ([2 ** 53 + 1, 2.0 ** 53], False), ([1.5, 1], False), ([1, 1.0000000000000002], False),
-             ([-1e-300, 0], False), ([10 ** 20, 1e20], True), ([10 ** 20 + 1, 1e20], False)]
+             ([-1e-300, 0], False), ([10 ** 20, 1e20], True), ([10 ** 20 + 1, 1e20], False),
+             ([10 ** 400, 10 ** 400], True), ([10 ** 400, 10 ** 400 + 1], False), ([2 ** 1024, 1.7976931348623157e308], False), ([True, 10 ** 400], False)]
 
 
 def c03_ties(res):
@@ -399,6 +403,7 @@ def c03(res):
             res.case(dict(game=g, dense=wo))
             allgames += c03_one(res, g, wo, rng)
     corr_games(res, allgames, "property", "C03 dense ranks / order of processing")
+    core.trace_games(res, allgames[:: max(1, len(allgames) // size(res, 800, 1500))], "correspondence", "C03")
     res.rule = ("for each game and weak order: ranks in 8 order-isomorphic encodings (int, float, mixed int/float, negative, "
                 "|v|>=2^53, gaps, bool, fractional), scores (negated), omitted vs [0..n-1]; all results must be bit-identical "
                 "to the dense-int baseline on the implementation, and equal to the model (exact Python int/float comparison); "
